@@ -486,3 +486,613 @@ def correspond(ctx):
     if outside * 20 > len(cases):
         ctx.note(f"X1: {outside} reader runs raised an exception class outside the model")
     ctx.correspond("X1 readers", "C08", cases, build=DRIVER_DEPS)
+
+
+# =========================================================================================== oracle on the real code
+VERSIONS = {"R12": "AC1009", "R2000": "AC1015", "R2004": "AC1018", "R2007": "AC1021", "R2010": "AC1024",
+            "R2013": "AC1027", "R2018": "AC1032"}
+CODEPAGES = {
+    "cp1252": "éüß€ñ×", "cp1250": "ąčžłő", "cp1251": "дфЖя", "cp1253": "αβΩψ", "cp1254": "ğİşı", "cp1255": "אבג",
+    "cp1256": "ابت", "cp1257": "āčėų", "cp1258": "ăơư", "cp874": "กขค", "cp932": "日本語ｱ", "gbk": "中文测试", "cp949": "한국어",
+    "cp950": "中文測試",
+}
+# characters that str.splitlines() / a careless strip() would treat specially but readline() does not
+TRICKY_ASCII = ["\x0b", "\x0c", "\x1c", "\x1d", "\x1e", "\x1f", "\t"]
+TRICKY_UNI = ["\x85", "\xa0", " ", " ", "　"]
+
+
+class _Timeout(Exception):
+    pass
+
+
+def _on_alarm(*a):
+    raise _Timeout()
+
+
+def _strings(rng, version, enc):
+    """pool of text values for one document"""
+    native = CODEPAGES[enc] if version < "AC1021" else "".join(CODEPAGES.values())
+    pool = ["plain", "", " lead", "trail ", "  ", "a;b|c,d", 'q"uote', "back\\slash", "%%d%%u", "^J^I^ ", "{\\C1;x}", "\\P",
+            "x" * 300, "tab\tin", "a" + rng.choice(TRICKY_ASCII) + "b"]
+    for _ in range(6):
+        pool.append("".join(rng.choice(native) for _ in range(rng.randint(1, 6))) + rng.choice(["", " z", "9"]))
+    if version >= "AC1021":
+        pool += ["a" + rng.choice(TRICKY_UNI) + "b", "\U0001F600 emoji", "Ωmega ∑"]
+    return pool
+
+
+def _num(rng):
+    x = rng.random()
+    if x < 0.25:
+        return float(rng.randint(-50, 50))
+    if x < 0.45:
+        return rng.randint(-4000, 4000) / 64.0
+    if x < 0.6:
+        return rng.choice([0.1 + 0.2, 1e-9, -1e-9, 1e12, 123456.789012345, -0.0, 1 / 3, 2.5e-5, 9.999999999999999e22])
+    return rng.uniform(-1000, 1000)
+
+
+def _pt(rng, dim=3):
+    return tuple(_num(rng) for _ in range(dim))
+
+
+def build_document(rng, version_name, enc, unencodable=False):
+    """a document with many entity types through the public factory API"""
+    import ezdxf
+
+    ver = VERSIONS[version_name]
+    r12 = ver == "AC1009"
+    doc = ezdxf.new(version_name)
+    if ver < "AC1021":
+        doc.encoding = enc
+    if r12 and rng.random() < 0.5:
+        doc.header["$HANDLING"] = 0
+    pool = _strings(rng, ver, enc)
+    if unencodable:
+        pool = pool + ["Ω∑ outside the code page", "x€y" if enc not in ("cp1252",) else "кириллица"]
+    S = lambda: rng.choice(pool)      # noqa: E731
+    doc.layers.add("L1", color=2)
+    lname = "L" + "".join(c for c in CODEPAGES[enc][:2]) if ver < "AC1021" else "LΩ"
+    if not r12:
+        try:
+            doc.layers.add(lname)
+        except Exception:  # noqa
+            lname = "L1"
+    else:
+        lname = "L1"
+    blk = doc.blocks.new("BLK")
+    blk.add_line((0, 0), (1, 1))
+    blk.add_attdef("TAG", (0, 0), S() or "x")
+    msp = doc.modelspace()
+    layouts = [msp, msp, msp, doc.paperspace()]
+    if not r12 and rng.random() < 0.5:
+        layouts.append(doc.layouts.new("Second"))
+    kinds = ["line", "circle", "arc", "point", "text", "attdef", "solid", "trace", "face", "pl2d", "pl3d", "mesh", "pface",
+             "plempty", "insert", "insert_attr", "shape"]
+    if not r12:
+        kinds += ["lwpl", "lwempty", "mtext", "mtextlong", "ellipse", "spline", "hatch", "ray", "xline", "leader", "meshent",
+                  "image", "wipeout", "mline", "dim", "mleader", "solid3d", "region", "tolerance", "helix", "lwpl", "mtext"]
+    n = rng.choice([3, 6, 10, 16])
+    made = []
+    for _ in range(n):
+        lay = rng.choice(layouts)
+        kind = rng.choice(kinds)
+        attribs = {"layer": rng.choice(["0", "L1", lname]), "color": rng.choice([256, 1, 7, 0])}
+        if rng.random() < 0.2:
+            attribs["linetype"] = "BYLAYER"
+        if not r12 and rng.random() < 0.2:
+            attribs["lineweight"] = rng.choice([-1, 13, 50])
+        if ver >= "AC1018" and rng.random() < 0.2:
+            attribs["true_color"] = rng.randrange(1 << 24)
+        e = None
+        try:
+            if kind == "line":
+                e = lay.add_line(_pt(rng), _pt(rng), dxfattribs=attribs)
+                if rng.random() < 0.2:
+                    e.dxf.thickness = _num(rng)
+                    e.dxf.extrusion = (0, 0, -1)
+            elif kind == "circle":
+                e = lay.add_circle(_pt(rng), abs(_num(rng)) + 0.1, dxfattribs=attribs)
+            elif kind == "arc":
+                e = lay.add_arc(_pt(rng), abs(_num(rng)) + 0.1, _num(rng), _num(rng), dxfattribs=attribs)
+            elif kind == "point":
+                e = lay.add_point(_pt(rng), dxfattribs=attribs)
+            elif kind == "text":
+                e = lay.add_text(S(), height=abs(_num(rng)) + 0.1, rotation=_num(rng), dxfattribs=attribs)
+                e.dxf.insert = _pt(rng)
+            elif kind == "attdef":
+                e = lay.add_attdef("T" + str(rng.randint(1, 9)), _pt(rng, 2), S(), dxfattribs=attribs)
+            elif kind == "solid":
+                e = lay.add_solid([_pt(rng, 2) for _ in range(rng.choice([3, 4]))], dxfattribs=attribs)
+            elif kind == "trace":
+                e = lay.add_trace([_pt(rng, 2) for _ in range(4)], dxfattribs=attribs)
+            elif kind == "face":
+                e = lay.add_3dface([_pt(rng) for _ in range(rng.choice([3, 4]))], dxfattribs=attribs)
+            elif kind == "pl2d":
+                e = lay.add_polyline2d([(_num(rng), _num(rng), 0.5, 0.25, _num(rng)) for _ in range(rng.randint(1, 5))],
+                                       format="xyseb", dxfattribs=attribs)
+            elif kind == "pl3d":
+                e = lay.add_polyline3d([_pt(rng) for _ in range(rng.randint(1, 5))], dxfattribs=attribs)
+            elif kind == "mesh":
+                e = lay.add_polymesh((2, 2), dxfattribs=attribs)
+                e.set_mesh_vertex((0, 0), _pt(rng))
+            elif kind == "pface":
+                e = lay.add_polyface(dxfattribs=attribs)
+                e.append_face([_pt(rng), _pt(rng), _pt(rng)])
+            elif kind == "plempty":
+                e = lay.add_polyline2d([], dxfattribs=attribs)
+            elif kind == "insert":
+                e = lay.add_blockref("BLK", _pt(rng), dxfattribs=dict(attribs, xscale=_num(rng) or 1, rotation=_num(rng)))
+            elif kind == "insert_attr":
+                e = lay.add_blockref("BLK", _pt(rng), dxfattribs=attribs)
+                for i in range(rng.randint(1, 3)):
+                    e.add_attrib("TAG%d" % i, S(), _pt(rng, 2))
+            elif kind == "shape":
+                e = lay.add_shape("S1", _pt(rng), size=abs(_num(rng)) + 0.1, dxfattribs=attribs)
+            elif kind == "lwpl":
+                e = lay.add_lwpolyline([(_num(rng), _num(rng), 0.0, 0.0, _num(rng)) for _ in range(rng.randint(1, 6))],
+                                       dxfattribs=attribs)
+                e.closed = rng.random() < 0.5
+            elif kind == "lwempty":
+                e = lay.add_lwpolyline([], dxfattribs=attribs)
+            elif kind == "mtext":
+                e = lay.add_mtext(S(), dxfattribs=attribs)
+                e.dxf.insert = _pt(rng)
+                e.dxf.char_height = abs(_num(rng)) + 0.1
+            elif kind == "mtextlong":
+                e = lay.add_mtext((S() + " ") * 120, dxfattribs=attribs)
+            elif kind == "ellipse":
+                e = lay.add_ellipse(_pt(rng), major_axis=(abs(_num(rng)) + 1, _num(rng), 0), ratio=0.5, dxfattribs=attribs)
+            elif kind == "spline":
+                e = lay.add_spline([_pt(rng) for _ in range(rng.randint(3, 6))], dxfattribs=attribs)
+                if rng.random() < 0.5:
+                    e = lay.add_open_spline([_pt(rng) for _ in range(5)], degree=3, dxfattribs=attribs)
+            elif kind == "hatch":
+                e = lay.add_hatch(color=rng.randint(1, 6), dxfattribs={"layer": attribs["layer"]})
+                e.paths.add_polyline_path([(_num(rng), _num(rng), _num(rng)) for _ in range(4)], is_closed=True)
+                if rng.random() < 0.5:
+                    ep = e.paths.add_edge_path()
+                    ep.add_line(_pt(rng, 2), _pt(rng, 2))
+                    ep.add_arc(_pt(rng, 2), 1.5, 0, 90)
+                if rng.random() < 0.4:
+                    e.set_pattern_fill("ANSI31", scale=abs(_num(rng)) + 0.1)
+                elif ver >= "AC1018" and rng.random() < 0.4:
+                    e.set_gradient((10, 20, 30), (200, 100, 50))
+            elif kind == "ray":
+                e = lay.add_ray(_pt(rng), (1, 0, 0), dxfattribs=attribs)
+            elif kind == "xline":
+                e = lay.add_xline(_pt(rng), (0, 1, 0), dxfattribs=attribs)
+            elif kind == "leader":
+                e = lay.add_leader([_pt(rng, 2) for _ in range(3)], dxfattribs=attribs)
+            elif kind == "meshent":
+                e = lay.add_mesh(dxfattribs=attribs)
+                with e.edit_data() as d:
+                    d.vertices = [_pt(rng) for _ in range(4)]
+                    d.faces = [[0, 1, 2], [0, 2, 3]]
+            elif kind == "image":
+                idef = doc.add_image_def("pic" + S()[:3] + ".png", (640, 480))
+                e = lay.add_image(idef, _pt(rng), (3, 2), dxfattribs=attribs)
+            elif kind == "wipeout":
+                e = lay.add_wipeout([_pt(rng, 2) for _ in range(4)], dxfattribs=attribs)
+            elif kind == "mline":
+                e = lay.add_mline([_pt(rng) for _ in range(rng.choice([0, 2, 3]))], dxfattribs=attribs)
+            elif kind == "dim":
+                d = lay.add_linear_dim(base=(0, 3), p1=_pt(rng, 2), p2=_pt(rng, 2), text=rng.choice(["<>", S()]))
+                d.render()
+                e = d.dimension
+            elif kind == "mleader":
+                b = lay.add_multileader_mtext("Standard")
+                b.set_content(S() or "c")
+                from ezdxf.math import Vec2
+                b.add_leader_line(__import__("ezdxf").render.mleader.ConnectionSide.left, [Vec2(-5, -5)])
+                b.build(insert=Vec2(_pt(rng, 2)))
+                e = b.multileader
+            elif kind == "solid3d":
+                e = lay.add_3dsolid(dxfattribs=attribs)
+            elif kind == "region":
+                e = lay.add_region(dxfattribs=attribs)
+            elif kind == "tolerance":
+                e = lay.new_entity("TOLERANCE", dict(attribs, insert=_pt(rng), content=S()))
+            elif kind == "helix":
+                e = lay.add_helix(radius=2, pitch=1, turns=2, dxfattribs=attribs)
+        except (_Timeout, KeyboardInterrupt):
+            raise
+        except Exception as ex:  # noqa  (a factory call this version does not support)
+            made.append(("skip", kind, type(ex).__name__))
+            continue
+        if e is None:
+            continue
+        made.append((kind, lay.name))
+        if rng.random() < 0.15:
+            if "VERIFAPP" not in doc.appids:
+                doc.appids.add("VERIFAPP")
+            e.set_xdata("VERIFAPP", [(1000, S()), (1070, 7), (1040, _num(rng)), (1010, _pt(rng))])
+        if not r12 and rng.random() < 0.1:
+            xd = e.new_extension_dict()
+            xd.add_xrecord("K").reset([(1, S()), (90, 5)])
+    return doc, made
+
+
+# ------------------------------------------------------------------ snapshots
+def _canon(v):
+    from ezdxf.math import Vec2, Vec3
+
+    if isinstance(v, Vec3):
+        return ("V3", v.x, v.y, v.z)
+    if isinstance(v, Vec2):
+        return ("V2", v.x, v.y)
+    if isinstance(v, float):
+        return ("F", v)
+    if isinstance(v, (list, tuple)):
+        return tuple(_canon(x) for x in v)
+    return v
+
+
+DROP_ATTRIBS = ("owner",)
+DROP_CODES = (330,)       # owner handle in the exported tags
+
+
+def snap(e, ver, with_handle=True):
+    """(dxftype, attribs, exported content tags or None, sub-entity snapshots)"""
+    from ezdxf.lldxf.tagwriter import TagCollector
+
+    attribs = {k: _canon(v) for k, v in e.dxf.all_existing_dxf_attribs().items()
+               if k not in DROP_ATTRIBS and (with_handle or k != "handle")}
+    try:
+        tags = tuple((t.code, _canon(t.value)) for t in TagCollector.dxftags(e, ver)
+                     if t.code not in DROP_CODES and (with_handle or t.code != 5))
+    except Exception:  # noqa  (export of an entity without document can need the document)
+        tags = None
+    subs = tuple(snap(s, ver, with_handle) for s in getattr(e, "_sub_entities", ()))
+    return (e.dxftype(), tuple(sorted(attribs.items())), tags, subs)
+
+
+def snaps(entities, ver, with_handle=True, supported_only=False):
+    from ezdxf.addons import iterdxf
+
+    return [snap(e, ver, with_handle) for e in entities if not supported_only or e.dxftype() in iterdxf.SUPPORTED_TYPES]
+
+
+def diff(a, b):
+    """first difference of two snapshot lists as (class, text), None if equal"""
+    if len(a) != len(b):
+        return "len", f"{len(a)} vs {len(b)} entities: {[x[0] for x in a][:10]} vs {[x[0] for x in b][:10]}"
+    for i, (x, y) in enumerate(zip(a, b)):
+        if x[0] != y[0]:
+            return "type", f"#{i} {x[0]} vs {y[0]}"
+        if x[1] != y[1]:
+            da, db = dict(x[1]), dict(y[1])
+            ks = sorted(k for k in set(da) | set(db) if da.get(k) != db.get(k))
+            return "attrib:" + ks[0], f"#{i} {x[0]}: " + ", ".join(f"{k}: {da.get(k)!r} vs {db.get(k)!r}" for k in ks[:3])
+        if len(x[3]) != len(y[3]):
+            return "subs", f"#{i} {x[0]}: {len(x[3])} vs {len(y[3])} sub-entities"
+        d = diff(list(x[3]), list(y[3]))
+        if d:
+            return "sub-" + d[0], f"#{i} {x[0]} sub-entity " + d[1]
+        if x[2] is not None and y[2] is not None and x[2] != y[2]:
+            for j, (p, q) in enumerate(zip(x[2], y[2])):
+                if p != q:
+                    return "content", f"#{i} {x[0]} exported tag {j}: {p} vs {q}"
+            return "content", f"#{i} {x[0]}: {len(x[2])} vs {len(y[2])} exported tags"
+    return None
+
+
+def source_diff(src_entities, got_entities):
+    """what the source document defines must arrive (defaults may be added by the writer: C01's subject)"""
+    if len(src_entities) != len(got_entities):
+        return "len", f"source has {len(src_entities)} entities, reader {len(got_entities)}"
+    for i, (s, g) in enumerate(zip(src_entities, got_entities)):
+        if s.dxftype() != g.dxftype():
+            return "type", f"#{i} {s.dxftype()} vs {g.dxftype()}"
+        for k, v in s.dxf.all_existing_dxf_attribs().items():
+            if k in DROP_ATTRIBS:
+                continue
+            try:
+                gv = g.dxf.get(k, g.dxf.dxf_default_value(k))
+            except Exception:  # noqa
+                gv = g.dxf.get(k)
+            if _canon(v) != _canon(gv):
+                return "attrib:" + k, f"#{i} {s.dxftype()}.{k}: source {v!r} reader {gv!r}"
+        ss, gs = getattr(s, "_sub_entities", []), getattr(g, "_sub_entities", [])
+        d = source_diff(list(ss), list(gs))
+        if d:
+            return "sub-" + d[0], f"#{i} {s.dxftype()} sub-entity " + d[1]
+    return None
+
+
+def _falsy(sn) -> bool:
+    """entity the iterdxf readers do not yield: `if queued:` with len(entity) == 0"""
+    typ, attribs, tags, subs = sn
+    if typ == "POLYLINE":
+        return len(subs) == 0
+    if typ == "LWPOLYLINE":
+        return tags is not None and not any(c == 10 for c, _ in tags) or dict(attribs).get("count", 1) == 0
+    if typ == "MLINE":
+        return dict(attribs).get("count", 1) == 0 or (tags is not None and not any(c == 11 for c, _ in tags))
+    return False
+
+
+# ------------------------------------------------------------------ readers of one ASCII file
+def ascii_readers(path, ver, with_handle):
+    import ezdxf
+    from ezdxf import recover
+    from ezdxf.addons import iterdxf
+    from ezdxf.filemanagement import dxf_file_info
+
+    out = {}
+
+    def run(name, fn):
+        signal.alarm(20)
+        try:
+            out[name] = fn()
+        except _Timeout:
+            out[name] = "EXC watchdog"
+        except Exception as ex:  # noqa
+            out[name] = f"EXC {type(ex).__name__}: {str(ex)[:120]}"
+        finally:
+            signal.alarm(0)
+
+    run("readfile", lambda: snaps(ezdxf.readfile(path).modelspace(), ver, with_handle, True))
+
+    def rd():
+        info = dxf_file_info(path)
+        with open(path, "rt", encoding=info.encoding, errors="surrogateescape") as fp:
+            return snaps(ezdxf.read(fp).modelspace(), ver, with_handle, True)
+
+    run("read", rd)
+    run("recover.readfile", lambda: snaps(recover.readfile(path)[0].modelspace(), ver, with_handle, True))
+
+    def rr():
+        with open(path, "rb") as fp:
+            return snaps(recover.read(fp)[0].modelspace(), ver, with_handle, True)
+
+    run("recover.read", rr)
+    run("iterdxf.modelspace", lambda: snaps(iterdxf.modelspace(path), ver, with_handle))
+
+    def sp():
+        with open(path, "rb") as fp:
+            return snaps(iterdxf.single_pass_modelspace(fp), ver, with_handle)
+
+    run("iterdxf.single_pass_modelspace", sp)
+
+    def od():
+        it = iterdxf.opendxf(path)
+        try:
+            return snaps(it.modelspace(), ver, with_handle)
+        finally:
+            it.close()
+
+    run("iterdxf.opendxf", od)
+    return out
+
+
+ITER_READERS = ("iterdxf.modelspace", "iterdxf.single_pass_modelspace", "iterdxf.opendxf")
+
+
+def _unicode_only(ref, got) -> bool:
+    """the two snapshot lists differ only by `\\U+XXXX` sequences that one side decoded"""
+    from ezdxf.lldxf.encoding import decode_dxf_unicode, has_dxf_unicode
+
+    def norm(x):
+        if isinstance(x, str):
+            return decode_dxf_unicode(x) if has_dxf_unicode(x) else x
+        if isinstance(x, tuple):
+            return tuple(norm(y) for y in x)
+        return x
+
+    return norm(tuple(ref)) == norm(tuple(got)) and tuple(ref) != tuple(got)
+
+
+def judge(fails, tag, writer, res, ref_name="readfile"):
+    """pairwise agreement of all readers with the reference reader; appends (key, what)"""
+    ref = res[ref_name]
+    if isinstance(ref, str):
+        fails.append((f"{writer}/{ref_name}/raised/{ref.split(':')[0][4:]}", f"{tag}: {ref_name} raised {ref}"))
+        return
+    for name, got in res.items():
+        if name == ref_name:
+            continue
+        if isinstance(got, str):
+            fails.append((f"{writer}/{name}/raised/{got.split(':')[0][4:]}", f"{tag}: {name} {got}"))
+            continue
+        d = diff(ref, got)
+        if d is None:
+            continue
+        expect = ref
+        reasons = []
+        if name in ITER_READERS:
+            nofalsy = [s for s in expect if not _falsy(s)]
+            if len(nofalsy) != len(expect) and diff(nofalsy, got) is None:
+                typ = next(s[0] for s in expect if _falsy(s))
+                fails.append((f"iterdxf/falsy-entity-dropped/{typ}", f"{tag}: {name} does not yield the empty {typ} (bool(entity) is False)"))
+                continue
+            if name == "iterdxf.single_pass_modelspace":
+                if diff(expect[:-1], got) is None:
+                    fails.append(("single-pass/last-entity-lost", f"{tag}: single_pass_modelspace lost the last entity {expect[-1][0]} of the ENTITIES section"))
+                    continue
+                if nofalsy and diff(nofalsy[:-1], got) is None or (len(nofalsy) != len(expect) and diff([s for s in expect[:-1] if not _falsy(s)], got) is None):
+                    fails.append(("single-pass/last-entity-lost", f"{tag}: single_pass_modelspace lost the last entity of the ENTITIES section"))
+                    fails.append(("iterdxf/falsy-entity-dropped/POLYLINE", f"{tag}: {name} does not yield an empty entity"))
+                    continue
+        if name.startswith("recover") and _unicode_only(ref, got):
+            fails.append(("recover/dxf-unicode-decoded", f"{tag}: {name} decodes \\U+XXXX, {ref_name} keeps it: {d[1]}"))
+            continue
+        fails.append((f"{writer}/{name}/{d[0]}", f"{tag}: {name} vs {ref_name}: {d[1]}"))
+
+
+def _doc_case(args):
+    """one generated document through every writer and every reader; returns (stats, [(key, what)], replay)"""
+    seed, idx, tmp = args
+    _quiet()
+    signal.signal(signal.SIGALRM, _on_alarm)
+    rng = random.Random(f"{seed}/doc/{idx}")
+    vname = list(VERSIONS)[idx % 7]
+    ver = VERSIONS[vname]
+    enc = rng.choice(list(CODEPAGES)) if idx % 3 else "cp1252"
+    mode = "rich" if idx % 4 else "history"
+    unenc = mode == "rich" and idx % 11 == 5
+    replay = {"op": "doc", "seed": seed, "idx": idx}
+    fails = []
+    stats = {"version": vname, "enc": enc if ver < "AC1021" else "utf8", "mode": mode, "kinds": []}
+    try:
+        signal.alarm(30)
+        if mode == "rich":
+            doc, made = build_document(rng, vname, enc, unenc)
+            stats["kinds"] = [m[0] for m in made if m[0] != "skip"]
+        else:
+            from gen.dochist import Runner, gen_rich
+
+            r = Runner(vname)
+            choose = gen_rich(random.Random(rng.randrange(1 << 30)))
+            for _ in range(rng.choice([10, 20, 30])):
+                op = choose(r)
+                if vname == "R12" and op[0] in ("newlayout", "dellayout", "renlayout", "activate", "reload"):
+                    continue
+                if op[0] == "reactor":
+                    continue
+                r.apply(op)
+                stats["kinds"].append(op[0])
+            doc = r.doc
+        signal.alarm(0)
+    except _Timeout:
+        return stats, [], replay, "watchdog-build"
+    finally:
+        signal.alarm(0)
+    tag = f"{vname}/{stats['enc']}/{mode}#{idx}"
+    base = os.path.join(tmp, f"d{os.getpid()}")
+    try:
+        fails += run_writers(doc, ver, tag, base, stats)
+    except _Timeout:
+        return stats, fails, replay, "watchdog-io"
+    return stats, fails, replay, None
+
+
+def run_writers(doc, ver, tag, base, stats):
+    import json
+
+    import ezdxf
+    from ezdxf.addons import iterdxf, r12export
+    from ezdxf.document import export_json_tags, load_json_tags
+
+    fails = []
+    with_handle = not (ver == "AC1009" and not doc.header.get("$HANDLING", 0))
+    # --- Drawing.write ASCII (LF)
+    pa = base + "-a.dxf"
+    try:
+        doc.saveas(pa)
+    except Exception as ex:  # noqa
+        if "All entities have to be in the same layout" in str(ex):
+            return fails   # C04's finding F21 (group members in several layouts): nothing was written
+        fails.append((f"write-asc/raised/{type(ex).__name__}", f"{tag}: saveas raised {type(ex).__name__}: {str(ex)[:100]}"))
+        return fails
+    src = [e for e in doc.modelspace() if e.dxftype() in iterdxf.SUPPORTED_TYPES]
+    res = ascii_readers(pa, ver, with_handle)
+    judge(fails, tag, "asc", res)
+    ref = res["readfile"]
+    stats["entities"] = len(ref) if not isinstance(ref, str) else -1
+    if not isinstance(ref, str):
+        got = [e for e in ezdxf.readfile(pa).modelspace() if e.dxftype() in iterdxf.SUPPORTED_TYPES]
+        d = source_diff(src, got)
+        if d:
+            fails.append((f"asc/source/{d[0]}", f"{tag}: source document vs readfile: {d[1]}"))
+    # --- the same content with CRLF line ends (what saveas produces on Windows)
+    pc = base + "-c.dxf"
+    with open(pa, "rb") as fp:
+        data = fp.read()
+    with open(pc, "wb") as fp:
+        fp.write(data.replace(b"\n", b"\r\n"))
+    res_c = ascii_readers(pc, ver, with_handle)
+    if not isinstance(ref, str):
+        res_c["readfile(LF)"] = ref
+        judge(fails, tag + " CRLF", "asc-crlf", res_c, "readfile(LF)")
+    # --- binary
+    pb = base + "-b.dxf"
+    try:
+        doc.saveas(pb, fmt="bin")
+        rb = {"readfile": ref, "readfile(bin)": snaps(ezdxf.readfile(pb).modelspace(), ver, with_handle, True)}
+        if not isinstance(ref, str):
+            judge(fails, tag + " bin", "bin", rb)
+    except _Timeout:
+        raise
+    except Exception as ex:  # noqa
+        fails.append((f"bin/raised/{type(ex).__name__}", f"{tag}: binary write/read raised {type(ex).__name__}: {str(ex)[:100]}"))
+    # --- JSON tags
+    for compact in (True, False):
+        try:
+            text = export_json_tags(doc, compact=compact)
+            jdoc = load_json_tags(json.loads(text))
+            rj = {"readfile": ref, "load_json_tags": snaps(jdoc.modelspace(), ver, with_handle, True)}
+            if not isinstance(ref, str):
+                judge(fails, tag + (" json-compact" if compact else " json-verbose"), "json", rj)
+        except _Timeout:
+            raise
+        except Exception as ex:  # noqa
+            fails.append((f"json/raised/{type(ex).__name__}", f"{tag}: JSON export/load (compact={compact}) raised {type(ex).__name__}: {str(ex)[:100]}"))
+    # --- iterdxf exporter: every modelspace entity of the ASCII file into a new file
+    pe = base + "-e.dxf"
+    try:
+        it = iterdxf.opendxf(pa)
+        try:
+            ex = it.export(pe)
+            n = 0
+            for e in it.modelspace():
+                ex.write(e)
+                n += 1
+            ex.close()
+        finally:
+            it.close()
+        res_e = ascii_readers(pe, ver, with_handle)
+        src_e = res["iterdxf.opendxf"]
+        if not isinstance(src_e, str):
+            res_e["source(opendxf)"] = src_e
+            judge(fails, tag + " iterdxf-export", "export", res_e, "source(opendxf)")
+    except _Timeout:
+        raise
+    except Exception as ex2:  # noqa
+        kind = "xdict" if "dictionary handle" in str(ex2) else type(ex2).__name__
+        fails.append((f"export/raised/{kind}", f"{tag}: iterdxf export raised {type(ex2).__name__}: {str(ex2)[:100]}"))
+    # --- r12export (downgrade): all readers must agree on its output
+    if ver != "AC1009":
+        pr = base + "-r.dxf"
+        try:
+            r12export.saveas(doc, pr)
+            res_r = ascii_readers(pr, "AC1009", False)
+            judge(fails, tag + " r12export", "r12export", res_r)
+        except _Timeout:
+            raise
+        except Exception as ex3:  # noqa
+            fails.append((f"r12export/raised/{type(ex3).__name__}", f"{tag}: r12export raised {type(ex3).__name__}: {str(ex3)[:100]}"))
+    return fails
+
+
+def oracle(ctx):
+    _quiet()
+    tmp = str(ctx.scratch)
+    n = ctx.n(210, 6000)
+    with _pool(12) as pool:
+        results = pool.map(_doc_case, [(ctx.seed, i, tmp) for i in range(n)], chunksize=5)
+    for stats, fails, replay, wd in results:
+        if wd:
+            ctx.hist("O1 documents", wd)
+            ctx.note(f"O1: document {replay['idx']} ({stats['version']}): {wd}, skipped")
+            continue
+        ctx.count("O1 documents", (replay["idx"], tuple(stats["kinds"])), stats.get("entities", 0) > 0)
+        ctx.hist("O1 documents", stats["version"])
+        ctx.hist("O1 documents", "enc:" + stats["enc"])
+        for k in stats["kinds"]:
+            ctx.hist("O1 documents", "k:" + k)
+        for key, what in fails:
+            ctx.fail(key, what, replay)
+
+
+def replay(ctx, rep):
+    _quiet()
+    bad = []
+    for f in rep.get("failing_inputs", []):
+        r = f["replay"]
+        if r.get("op") == "doc":
+            stats, fails, _, wd = _doc_case((r["seed"], r["idx"], str(ctx.scratch)))
+            keys = [k for k, _ in fails]
+            if f["key"] in keys:
+                bad.append(f["key"])
+    return (not bad, "; ".join(bad) or "recorded failing inputs pass now")
